@@ -359,11 +359,11 @@ Proof.
   - rewrite (get_queue_same_queues s); auto. destruct (q_durable qu && m_pers m); cbn; auto. destruct (m_conf m); cbn; auto. rewrite queues_upd_msg. reflexivity.
 Qed.
 
-Lemma fold_push_R c h u (confirm has_meta : bool) qs : NoDup qs -> forall s q, get_msg s u <> None ->
+Lemma fold_push_R c h u (g : state -> string -> msg -> bool) (tf : state -> msg -> option (N * N * N)) qs : NoDup qs -> forall s q, get_msg s u <> None ->
   R (fold_left (fun s qn =>
                   match get_msg (queue_push s qn u) u with
-                  | Some m => if confirm && has_meta && (m_actual m =? m_expected m)%Z && negb (m_pers m)
-                              then add_confirm (queue_push s qn u) c h (m_conf m) else queue_push s qn u
+                  | Some m => if g s qn m
+                              then add_confirm (queue_push s qn u) c h (tf (queue_push s qn u) m) else queue_push s qn u
                   | None => queue_push s qn u
                   end) qs s) q =
   match R s q with Some l => Some (if existsb (seqb q) qs && push_target s q then l ++ [u] else l) | None => None end.
@@ -420,7 +420,11 @@ Proof.
     { subst s0. match goal with |- get_msg (if ?b then _ else _) u <> _ => destruct b end; [|congruence].
       apply get_msg_upd_msg_some. congruence. }
     clearbody s0. rewrite <- R0, <- P0.
-    apply (fold_push_R c h u _ _ (q1 :: qs') Hnd s0 q M0).
+    apply (fold_push_R c h u
+             (fun s1 qn m0 => match m_conf m with Some _ => true | None => false end &&
+                              match get_queue s1 qn with Some qu => q_active qu && negb (q_durable qu && m_pers m) | None => false end &&
+                              (m_actual m0 =? m_expected m0)%Z)
+             live_conf (q1 :: qs') Hnd s0 q M0).
 Qed.
 
 (* ------------------------------------------------------------------ *)
